@@ -11,13 +11,15 @@ META = {
     "technique": "TLC walks every day of years 1..9999 (successor rule) and every second of a day (carry rule) checking the "
                  "closed-form day number / inverse / year-start table and clock split against them, and generates date-time "
                  "texts (all zone offsets, lexical variants, 1..9 fraction digits, the four output formats) with the instants "
-                 "they denote; every generated row/text is replayed on the real asl::Date under ASan; recorded random "
+                 "they denote, and texts (with all their prefixes) for the format-driven constructor Date(text, format); every "
+                 "generated row/text is replayed on the real asl::Date under ASan; recorded random "
                  "executions (instants incl. sub-millisecond ones, well-formed / mutated / random strings) are validated by "
                  "TLC with the same operators",
     "design_ref": "DESIGN.md section 6, C19",
     "level_text": "TLC model-checks the calendar (3.65 M days, three independent formulations + successor rule), the clock "
                   "(86 400 s) and the text generator (Read(Format(i)) = i, zone shift for every offset -23:59..+23:59) and "
-                  "every row and text it generates is executed on asl::Date (splitUTC, Date(UTC,..), toUTCString, Date(String)) "
+                  "every row and text it generates is executed on asl::Date (splitUTC, Date(UTC,..), toUTCString, Date(String), "
+                  "Date(String, format)) "
                   "with exact comparison; recorded executions of the real code are accepted by Trace_Calendar.tla.",
     "level_note": "Finite spaces (days, seconds of a day, zone offsets) are complete; instants are otherwise sampled (seeded). "
                   "Date holds a double: the harness converts (day, second, microsecond) to that double and accepts 100 us of "
